@@ -213,6 +213,12 @@ class Ctx:
                    "ucid": id(obj.unit_currency),
                    "tcid": id(obj.term_currency),
                    "repr": repr(obj)}
+            for name, attr in (("um", "_unit_multiple"),
+                               ("ta", "_term_amount")):
+                try:
+                    rec[name] = self.describe(getattr(obj, attr), depth + 1)
+                except Exception:
+                    rec[name] = None
             for name in ("rate", "inverse_rate"):
                 try:
                     rec[name] = self.describe(getattr(obj, name), depth + 1)
